@@ -1477,10 +1477,11 @@ class Collection(object):
             # message from mongodb
             raise OperationFailure("remove and returnNew can't co-exist")
 
-        if not (remove or update):
+        # an empty replacement is a replacement: only "no update document at all" counts as none
+        if not remove and update is None:
             raise ValueError('Must either update or remove')
 
-        if remove and update:
+        if remove and update is not None:
             raise ValueError("Can't do both update and remove")
 
         if update:
